@@ -601,7 +601,7 @@ func ruleC03AggSiblings(c *Ctx) {
 			continue
 		}
 		lp := loops[0]
-		paths, err := WalkFrom(f, lp.body, lp.header, WalkCfg{StopAt: func(b *ssa.BasicBlock) bool { return b == lp.header }, MaxVisits: 1})
+		paths, err := WalkFrom(f, lp.body, lp.header, WalkCfg{StopAt: func(b *ssa.BasicBlock) bool { return b == lp.header }, MaxVisits: 1, Bind: bindArgs(helperCall)})
 		if err != nil {
 			c.Unknown("c03.agg-siblings", key, c.P.Pos(f.Pos()), err.Error())
 			continue
@@ -727,9 +727,11 @@ func ruleC03AggSiblings(c *Ctx) {
 		isAcc := func(t *Term) bool { return t != nil && t.V == ssa.Value(acc) }
 		isFlag := func(t *Term) bool { return t != nil && t.V == ssa.Value(flag) }
 		post, err := WalkFrom(f, lp.exit, lp.header, WalkCfg{MaxVisits: 1})
+		ilen := -1 // helper form: the result position that carries the member count
 		if err == nil && helperCall != nil {
 			// the helper hands (accumulator, flag) back: find their result positions, then judge the registered function
 			ia, ifl := -1, -1
+			ilen = -1
 			for _, p := range post {
 				if p.Exit != "return" {
 					continue
@@ -745,6 +747,17 @@ func ruleC03AggSiblings(c *Ctx) {
 			}
 			if ia < 0 || ifl < 0 {
 				why = append(why, "the helper that holds the member loop does not return the accumulator and the all-NULL flag")
+			}
+			// the member count may be handed back as well (len of the array, taken in the helper)
+			for _, p := range post {
+				if p.Exit != "return" {
+					continue
+				}
+				for i, r := range p.Ret {
+					if r.T != nil && r.T.Op == "call" && r.T.Name == "builtin:len" && !p.Ret[len(p.Ret)-1].NonNil && p.Ret[len(p.Ret)-1].Nil {
+						ilen = i
+					}
+				}
 			}
 			resultOf := func(t *Term, idx int) bool {
 				return t != nil && t.Op == "ext" && t.Name == fmt.Sprint(idx) && len(t.Args) == 1 && t.Args[0].V == ssa.Value(helperCall)
@@ -801,6 +814,10 @@ func ruleC03AggSiblings(c *Ctx) {
 					}
 				case "avg":
 					okAvg := r != nil && r.Op == "bin" && r.Name == "/" && isAcc(r.Args[0]) && r.Args[1].Op == "conv" && r.Args[1].Args[0].Op == "call" && r.Args[1].Args[0].Name == "builtin:len"
+					if !okAvg && helperCall != nil && ilen >= 0 && r != nil && r.Op == "bin" && r.Name == "/" && isAcc(r.Args[0]) && r.Args[1].Op == "conv" {
+						n := r.Args[1].Args[0]
+						okAvg = n.Op == "ext" && n.Name == fmt.Sprint(ilen) && len(n.Args) == 1 && n.Args[0].V == ssa.Value(helperCall)
+					}
 					if !okAvg {
 						why = append(why, "AVG returns "+avString(p.Ret[0])+", not accumulator / member count")
 					}
@@ -819,8 +836,19 @@ func ruleC03AggSiblings(c *Ctx) {
 			continue
 		}
 		loops := rangeLoops(f)
+		var helperCall *ssa.Call
+		if len(loops) == 0 {
+			allInstrs(f, func(_ *ssa.BasicBlock, in ssa.Instruction) {
+				if call, ok := in.(*ssa.Call); ok && isUnknownHelper(call.Common().StaticCallee()) && len(rangeLoops(call.Common().StaticCallee())) == 1 && helperCall == nil {
+					helperCall = call
+				}
+			})
+			if helperCall != nil {
+				loops = rangeLoops(helperCall.Common().StaticCallee())
+			}
+		}
 		if len(loops) != 1 {
-			continue
+			continue // reported by the per-function obligation above
 		}
 		var acc *ssa.Phi
 		for _, in := range loops[0].header.Instrs {
@@ -834,6 +862,14 @@ func ruleC03AggSiblings(c *Ctx) {
 		ok, why := false, "initial accumulator not found"
 		for i, e := range acc.Edges {
 			if acc.Block().Preds[i] == loops[0].header.Idom() || !loops[0].header.Dominates(acc.Block().Preds[i]) {
+				if prm, isP := e.(*ssa.Parameter); isP && helperCall != nil {
+					// helper form: the initial value is the call site's argument
+					for j, hp := range helperCall.Common().StaticCallee().Params {
+						if hp == prm && j < len(helperCall.Common().Args) {
+							e = helperCall.Common().Args[j]
+						}
+					}
+				}
 				if cst, isC := e.(*ssa.Const); isC && cst.Value != nil {
 					fv, _ := constant.Float64Val(cst.Value)
 					if name == "min" && fv >= 1.7e308 || name == "max" && fv <= -1.7e308 {
@@ -857,23 +893,47 @@ func termStr(t *Term) string {
 
 // guardFirst: the first call in f is Guard(n, args) and its error is returned.
 func guardFirst(f *ssa.Function, n int64) bool {
+	return guardFirstOn(f, n, nil, 0)
+}
+
+// guardFirstOn: the first call of f is Guard(n, args) on f's argument list (args == nil: any []any parameter), or a
+// call of a helper the rule tables do not know that receives the argument list and itself starts with that guard.
+func guardFirstOn(f *ssa.Function, n int64, args *ssa.Parameter, depth int) bool {
+	if len(f.Blocks) == 0 || depth > 3 {
+		return false
+	}
+	isArgs := func(v ssa.Value) bool {
+		p, isP := v.(*ssa.Parameter)
+		if !isP || shortType(p.Type()) != "[]any" {
+			return false
+		}
+		return args == nil || p == args
+	}
 	for _, in := range f.Blocks[0].Instrs {
 		call, ok := in.(*ssa.Call)
 		if !ok {
 			continue
 		}
 		cal := call.Common().StaticCallee()
-		if cal == nil || cal.Name() != "Guard" {
+		if cal == nil {
+			return false
+		}
+		if isUnknownHelper(cal) {
+			for i, a := range call.Common().Args {
+				if isArgs(a) && i < len(cal.Params) {
+					return guardFirstOn(cal, n, cal.Params[i], depth+1)
+				}
+			}
+			return false
+		}
+		if cal.Name() != "Guard" || len(call.Common().Args) != 2 {
 			return false
 		}
 		k, isC := constIntOf(call.Common().Args[0])
 		if !isC || k != n {
 			return false
 		}
-		if p, isP := call.Common().Args[1].(*ssa.Parameter); !isP || shortType(p.Type()) != "[]any" {
-			return false
-		}
-		return true
+		return isArgs(call.Common().Args[1])
 	}
 	return false
 }
